@@ -66,6 +66,34 @@ func rt_11(c *core.Ctx, p *core.Prog) {
 		c.Undecided("anchors", "?", "", "CBOR encode/decode functions not found")
 		return
 	}
+	// limits: the encoder writes whatever depth and size the value has; a decoder built with limits below the
+	// library's defaults (DecOptions{MaxNestedLevels: 8}) refuses batches whose values are inside the property's
+	// domain — nothing of such a batch round-trips
+	{
+		var narrowed []string
+		for _, fn := range p.FuncsIn(func(pp string) bool { return pp == pkgCommon }) {
+			core.EachInstr(fn, func(i ssa.Instruction) {
+				st, ok := i.(*ssa.Store)
+				if !ok {
+					return
+				}
+				fa, ok := st.Addr.(*ssa.FieldAddr)
+				if !ok || !strings.Contains(core.TypePkgPath(fa.X.Type()), "cbor") || core.TypeName(fa.X.Type()) != "DecOptions" {
+					return
+				}
+				switch core.FieldName(fa) {
+				case "MaxNestedLevels", "MaxArrayElements", "MaxMapPairs":
+					if _, isC := st.Val.(*ssa.Const); isC {
+						narrowed = append(narrowed, fmt.Sprintf("%s: %s = %s", p.Pos(st.Pos()), core.FieldName(fa), st.Val.Name()))
+					} else {
+						narrowed = append(narrowed, fmt.Sprintf("%s: %s set", p.Pos(st.Pos()), core.FieldName(fa)))
+					}
+				}
+			})
+		}
+		c.Check(len(narrowed) == 0, "decoder|limits", p.Pos(dec.Pos()), core.FuncName(dec), "the CBOR decoder runs with the library's default limits",
+			fmt.Sprintf("the CBOR decoder is configured with its own limits (%v) while the encoder writes values of any depth and size: a list/map body or attribute value beyond them — still inside the property's domain — makes the consumer reject the whole batch", narrowed))
+	}
 	// decoder: asserted types and the pdata writers under each
 	type arm struct {
 		ta      *ssa.TypeAssert
